@@ -7,12 +7,15 @@ every module (the names S makes visible inside it) inserted.
 
 Input (one token list per line):
   case <id> | module <k> | def <name> | prov <name> | cprov <name> | req <spec> | view <name>… | end
+            | mac <name> | mprov <name> | fsprov <name>     (macros: define-syntax, provide, provide for-syntax)
   request | req <spec> | def <name> | mode ok|syntax|freeid|runtime | obs <name>… | end | endcase
   <spec> ::= <k>[~<spelling>] | p:<prefix>:<spec> | o:<id>[=<to>],…:<spec>
   `dir <sub/dir>` (in a module) and `~<spelling>` only tell the harness where the file is put and how the
   path in the require form is written; a module is identified by its canonical path, i.e. by `k`.
 -/
 import SteelVerif.C14.Model
+import SteelVerif.C14.Contract
+import SteelVerif.C14.Macros
 namespace SteelVerif.C14
 
 def parseIds (s : String) : List (Name × Option Name) :=
@@ -35,6 +38,7 @@ def parseSpec (s : String) : Option Spec :=
 structure Case where
   id : String := ""
   mods : List Module := []
+  mmods : List MacMod := []     -- the macro part of every module (same index)
   reqs : List Request := []
   raw : List String := []       -- the input lines of the case, in order
 deriving Inhabited
@@ -47,32 +51,49 @@ structure PState where
   cur : Case := {}
   ctx : Ctx := .none
   m : Module := ⟨[], [], [], []⟩
+  mm : MacMod := {}
   r : Request := { specs := [] }
   done : List Case := []
   errors : List String := []
 
 def toks (l : String) : List String := (l.trimAscii.toString.splitOn " ").filter (· ≠ "")
 
-def parseMode : String → Mode
-  | "syntax" => .failCompile | "freeid" => .failBuild | "runtime" => .failRuntime | _ => .ok
+/-- `form:<keyword>`: the program consists of a require with a list form the parser does not know
+(`rename-in`, `except-in`, a `for-syntax` around a spec): a syntax error, like a macro that does not match. -/
+def parseMode (s : String) : Mode :=
+  if s.startsWith "form:" then .failCompile
+  else match s with
+    | "syntax" => .failCompile | "freeid" => .failBuild | "runtime" => .failRuntime | _ => .ok
+
+/-- Convention of the generators: a name whose last component (after the last `.` or `-`) starts with `m` is a
+macro (defined by `mac`, provided by `mprov` / `fsprov`), observed by expanding `(name 1)`. -/
+def isMacName (n : Name) : Bool :=
+  ((n.reverse.takeWhile fun c => c ≠ '.' ∧ c ≠ '-').reverse).head? == some 'm'
 
 def feed (p : PState) (l : String) : PState :=
   let l := (l.toList.filter (fun c => c ≠ '\n' ∧ c ≠ '\r')) |> String.ofList
   let p := { p with cur := { p.cur with raw := p.cur.raw ++ [l] } }
   match toks l, p.ctx with
   | ["case", id], _ => { p with cur := { id := id, raw := [l] }, ctx := .none }
-  | ["module", _], _ => { p with ctx := .inModule, m := ⟨[], [], [], []⟩ }
+  | ["module", _], _ => { p with ctx := .inModule, m := ⟨[], [], [], []⟩, mm := {} }
+  | ["mac", n], .inModule => { p with mm := { p.mm with macs := p.mm.macs ++ [n.toList] } }
+  | ["mprov", n], .inModule => { p with mm := { p.mm with plainProv := p.mm.plainProv ++ [n.toList] } }
+  | ["fsprov", n], .inModule => { p with mm := { p.mm with fsProv := p.mm.fsProv ++ [n.toList] } }
   | ["request"], _ => { p with ctx := .inRequest, r := { specs := [] } }
   | ["dir", _], .inModule => p     -- where the file lives: irrelevant to the module's identity
   | ["def", n], .inModule => { p with m := { p.m with defs := p.m.defs ++ [n.toList] } }
   | ["prov", n], .inModule => { p with m := { p.m with provs := p.m.provs ++ [⟨n.toList, false⟩] } }
   | ["cprov", n], .inModule => { p with m := { p.m with provs := p.m.provs ++ [⟨n.toList, true⟩] } }
-  | "view" :: ns, .inModule => { p with m := { p.m with views := p.m.views ++ ns.map String.toList } }
+  | "view" :: ns, .inModule =>
+      let names := ns.map String.toList
+      { p with m := { p.m with views := p.m.views ++ names.filter (!isMacName ·) },
+               mm := { p.mm with views := p.mm.views ++ names.filter isMacName } }
   | ["req", s], .inModule =>
       match parseSpec s with
       | some sp => { p with m := { p.m with reqs := p.m.reqs ++ [sp] } }
       | none => { p with errors := p.errors ++ [s!"bad spec {s}"] }
-  | ["end"], .inModule => { p with cur := { p.cur with mods := p.cur.mods ++ [p.m] }, ctx := .none }
+  | ["end"], .inModule =>
+      { p with cur := { p.cur with mods := p.cur.mods ++ [p.m], mmods := p.cur.mmods ++ [p.mm] }, ctx := .none }
   | ["def", n], .inRequest => { p with r := { p.r with defs := p.r.defs ++ [n.toList] } }
   | ["req", s], .inRequest =>
       match parseSpec s with
@@ -99,23 +120,37 @@ function returning its tag, `h2`..`h6` a function of that many parameters taking
 every other definition is the tag itself. -/
 def isFn (n : Name) : Bool := n.head? == some 'f' || n.head? == some 'g' || n.head? == some 'h'
 
-def showVal (v : Val) : String :=
-  let t := s!"{showOrigin v.origin}.{showName v.name}"
-  if isFn v.name then s!"fn:{t}:{if v.contracted then "c" else "p"}" else t
+/-- `h2`..`h6`: that many parameters, the first one a callback. -/
+def hofArity (n : Name) : Option Nat :=
+  match n with
+  | 'h' :: d :: _ => if '2' ≤ d ∧ d ≤ '6' then some (d.toNat - '0'.toNat) else none
+  | _ => none
 
-def showOVal : Option Val → String
-  | some v => showVal v
+/-- `#<n>`: how often the contract predicate `c14-int?` is evaluated during the good call of the harness's
+`obs_expr` — by the contract mechanism M (`Contract.callM`, table regenerated from contracts.scm) or by S
+(`Contract.callS`: once per crossing of the boundary). -/
+def showVal (useM : Bool) (v : Val) : String :=
+  let t := s!"{showOrigin v.origin}.{showName v.name}"
+  if isFn v.name then
+    let n := match hofArity v.name with
+      | some k => Contract.predictedChecks useM v.contracted true k
+      | none => Contract.predictedChecks useM v.contracted false 1
+    s!"fn:{t}:{if v.contracted then "c" else "p"}#{n}"
+  else t
+
+def showOVal (useM : Bool) : Option Val → String
+  | some v => showVal useM v
   | none => "err:free-id"
 
 def showStatus : Status → String
   | .ok => "ok" | .errSyntax => "err:syntax" | .errFreeId => "err:free-id"
   | .errRuntime => "err:runtime" | .errRequire => "err:require" | .undetermined => "undetermined"
 
-def showBindings (l : List (Name × Option Val)) : String :=
-  " ".intercalate (l.map fun (n, v) => s!"{showName n}={showOVal v}")
+def showBindings (useM : Bool) (l : List (Name × Option Val)) : String :=
+  " ".intercalate (l.map fun (n, v) => s!"{showName n}={showOVal useM v}")
 
-def lineOf (head : String) (l : List (Name × Option Val)) : String :=
-  if l.isEmpty then head else head ++ " " ++ showBindings l
+def lineOf (useM : Bool) (head : String) (l : List (Name × Option Val)) : String :=
+  if l.isEmpty then head else head ++ " " ++ showBindings useM l
 
 def insertSorted (k : Nat) : List Nat → List Nat
   | [] => [k]
@@ -126,30 +161,56 @@ def sortDedup (l : List Nat) : List Nat := l.foldl (fun acc k => insertSorted k 
 def cntLine (n : Nat) (count : Nat → Nat) : String :=
   "cnt " ++ " ".intercalate ((List.range n).map fun k => s!"{k}:{count k}")
 
-def runModel (fixed : Fix) (c : Case) : List String := Id.run do
-  let g : Graph := c.mods
+def runModel (fixed : Fix) (mfix : MacFix) (c : Case) : List String := Id.run do
+  let mg : MacGraph := c.mmods
+  let g : Graph := if fixed.compose then valueGraph c.mods mg else c.mods
+  let vpart := fun (s : Spec) => if fixed.compose then s.part mg false else s
   let mut st : MState := {}
+  let mut menv : List (Name × Val) := []
+  let mut mviews : List (Nat × List (Name × Option Val)) := []
   let mut out : List String := [s!"case {c.id}"]
   let mut i := 0
   let mut stop := false
   for r in c.reqs do
     if stop then continue
-    let (st', status) := evalRequestM fixed g st r
+    let rv : Request := { r with specs := r.specs.map vpart }
+    let emitted := (evalRequestI fixed.rollback g st.im rv.specs rv.mode).2.2
+    -- The bodies of the emitted modules are part of the program: a form in them that no macro of the module
+    -- matched is expanded with the engine's macro environment, to which the program's requires have been added
+    -- by then (`compile_main`: `global_macro_map.extend(in_scope_macros)`, then `expand` over all statements).
+    let menvProg := (macImports mfix c.mods mg r.specs).foldl (fun e b => minsert e b.1 b.2) menv
+    let viewOf := fun (k : Nat) (n : Name) =>
+      match macViewM mfix c.mods mg k n with
+      | some v => some v
+      | none => menvProg.lookup n
+    -- a module body that uses a macro which is not in scope calls an undefined function: the program fails when
+    -- it is built, like any free identifier
+    -- … and a macro of the module that a require removed from its macro map but that the module provides as a
+    -- plain identifier is then a provide of a VALUE nobody defines
+    let macroFree := emitted.any fun k =>
+      ((mg.mod k).views.any fun n => (viewOf k n).isNone) ||
+      ((mg.mod k).plainProv.any fun n =>
+        (mg.mod k).macs.contains n && !(effMacs mfix.ownFirst c.mods mg k).contains n)
+    let r' := if macroFree then { rv with mode := .failBuild } else rv
+    let (st', status) := evalRequestM fixed g st r'
     if status = .undetermined then
       out := out ++ ["undetermined"]
       stop := true
       continue
     st := st'
+    menv := macStep mfix c.mods mg menv r.specs status
+    if status = .ok ∨ status = .errRuntime then
+      mviews := (emitted.map fun k => (k, (mg.mod k).views.map fun n => (n, viewOf k n))) ++ mviews
     out := out ++ [s!"req {i} {showStatus status}",
-      lineOf "obs" (r.obs.map fun n => (n, st.tbl.lookup n))]
+      lineOf true "obs" (r.obs.map fun n => (n, if isMacName n then menv.lookup n else st.tbl.lookup n))]
     for k in sortDedup (st.hashes.map (·.1)) do
-      out := out ++ [lineOf s!"view {k}" (mView st k)]
+      out := out ++ [lineOf true s!"view {k}" (mView st k ++ (mviews.lookup k).getD [])]
     out := out ++ [cntLine g.length st.im.count]
     i := i + 1
   return out ++ ["endcase"]
 
 def runSpec (c : Case) : List String := Id.run do
-  let g : Graph := c.mods
+  let g : Graph := mergeMacros c.mods c.mmods
   let ms := sBuild g
   let mut st : SState := {}
   let mut out : List String := [s!"case {c.id}"]
@@ -158,16 +219,17 @@ def runSpec (c : Case) : List String := Id.run do
     let (st', status) := evalRequestS g ms st r
     st := st'
     out := out ++ [s!"req {i} {showStatus status}",
-      lineOf "obs" (r.obs.map fun n => (n, st.top.lookup n))]
+      lineOf false "obs" (r.obs.map fun n => (n, st.top.lookup n))]
     for k in sortDedup st.inst do
-      out := out ++ [lineOf s!"view {k}" (sView g ms k)]
+      out := out ++ [lineOf false s!"view {k}" (sView g ms k)]
     out := out ++ [cntLine g.length (fun k => if k ∈ st.inst then 1 else 0)]
     i := i + 1
   return out ++ ["endcase"]
 
 /-- Echo the case, inserting before each module's `end` the names S makes visible inside it. -/
 def elabCase (c : Case) : List String := Id.run do
-  let ms := sBuild c.mods
+  let gS := mergeMacros c.mods c.mmods
+  let ms := sBuild gS
   let mut out : List String := []
   let mut k := 0
   let mut inMod := false
@@ -184,7 +246,9 @@ def elabCase (c : Case) : List String := Id.run do
         let m := c.mods.getD k ⟨[], [], [], []⟩
         let flat := m.defs ++ (m.reqs.map Spec.flatten).flatMap fun r =>
           (r.importsM ((Graph.provNames c.mods r.target).map fun n => (n, ()))).map (·.1)
-        let names := (((ms.getD k ⟨[], [], true⟩).env.map (·.1)).eraseDups).filter (flat.contains ·)
+        let all := ((ms.getD k ⟨[], [], true⟩).env.map (·.1)).eraseDups
+        -- values first, then the macros S makes visible in the module (all of them)
+        let names := (all.filter fun n => !isMacName n && flat.contains n) ++ all.filter isMacName
         if !names.isEmpty then
           out := out ++ ["view " ++ " ".intercalate (names.map showName)]
         k := k + 1
@@ -198,9 +262,10 @@ graph is (`graphGuard`) and how many leading requests are (`reqGuard`): on those
 real engine must equal S there, with no finding to appeal to. -/
 def guardCase (c : Case) : List String :=
   let g : Graph := c.mods
-  let gok := graphGuard g
+  -- modules that provide or use macros are outside the theorem (macros are not part of `evalRequestM`)
+  let gok := graphGuard false g && c.mmods.all fun d => d.macs.isEmpty && d.views.isEmpty
   let ms := sBuild g
-  let lead := (c.reqs.takeWhile (reqGuard g ms)).length
+  let lead := (c.reqs.takeWhile (reqGuard false g ms)).length
   [s!"case {c.id}", s!"guard {gok} {if gok then lead else 0} {c.reqs.length}", "endcase"]
 
 partial def readAll (h : IO.FS.Stream) (p : PState) : IO PState := do
@@ -223,14 +288,17 @@ def main (args : List String) : IO UInt32 := do
       | "elab" => elabCase c
       | "spec" => runSpec c
       | "guard" => guardCase c
-      | "model" => runModel {} c
+      | "model" => runModel {} {} c
       | m =>
         -- `variant:<flags>`: m = modifiers composed (what S asks; open finding K14c),
         -- R = the roll-back defect fixed by d10f8017 re-introduced, C = the unmangled contract
-        -- imports fixed by 1587f6f5 re-introduced
+        -- imports fixed by 1587f6f5 re-introduced; macros: e = modifiers apply to macros (K14e),
+        -- f = macros of a failed request are rolled back (K14f), g = a module's own macro wins (K14g)
         let fl := ((m.splitOn ":").getD 1 "").toList
         runModel { rollback := !fl.contains 'R', contractImports := !fl.contains 'C',
-                   compose := fl.contains 'm' } c
+                   compose := fl.contains 'm' }
+          { compose := fl.contains 'm', modifiers := fl.contains 'e', rollback := fl.contains 'f',
+            ownFirst := fl.contains 'g' } c
     for l in lines do
       IO.println l
   return (if p.errors.isEmpty then 0 else 2)
